@@ -26,6 +26,9 @@ func RunScenario(base string, tmpls []*Template, t *Tool, r *gen.Rand, nRounds i
 		} else if r.Chance(1, 4) {
 			w.MutateIndex(r)
 		}
+		if r.Chance(1, 3) {
+			w.AddBystanders(r)
+		}
 		kind := "sync"
 		if i > 0 && r.Chance(1, 3) {
 			kind = "remove"
